@@ -267,6 +267,11 @@ def r3_log_gamma(ctx):
                     l, r = r, l
                 ok = U(l) == nr and isinstance(r, ast.Call) and call_name(r) == lg and [U(x).replace("idx", idx) for x in r.args] == [e.replace("idx", idx) for e in extra]
         ctx.check(ok, a, "weighted-namesake", "%s must accumulate coefficient * %s(%s)" % (q, lg, ", ".join(extra)), node=fn)
+        # every species contributes: nothing in the loop may skip an entry (a neutral species still has its C*I term)
+        skips = [n_ for l_ in lp for n_ in ast.walk(l_) if isinstance(n_, (ast.Continue, ast.Break))] + \
+                [n_ for l_ in lp for n_ in l_.body if isinstance(n_, ast.If) and any(isinstance(x_, ast.AugAssign) and U(x_.target) == "tot" for x_ in ast.walk(n_))]
+        ctx.check(not skips, a, "every-species-contributes", "%s must add the term of every species; an entry is skipped or its term made conditional (line %s)" % (
+            q, skips[0].lineno if skips else "-"), node=skips[0] if skips else fn)
         ret = [n for n in walk_shallow(fn) if isinstance(n, ast.Return)][-1]
         ctx.check(U(ret.value) == "be.exp(tot)" and has(fn, "tot = 0"), a, "exp(sum)", "the product must be be.exp(tot) with tot starting at 0", node=ret)
         ctx.check(has(fn, "Aval = A(eps_r, T, rho)") and ("Bval" not in extra or has(fn, "Bval = B(eps_r, T, rho)")), a, "A(eps,T,rho)", "A/B must be evaluated as A(eps_r, T, rho) / B(eps_r, T, rho)", node=fn)
@@ -276,10 +281,11 @@ RULES = [
     Rule("C18-R1", r1_ionic_strength, 9, "ionic strength definition, neutrality warning, charge alignment"),
     Rule("C18-R2", r2_A_B, 7, "A dimensionless and B 1/length in both paths; hard-coded factors vs CODATA"),
     Rule("C18-R2b", r2b_normal_forms, 13, "constants-path normal forms vs textbook; hard-coded path exponents", tier="thorough"),
-    Rule("C18-R3", r3_log_gamma, 14, "log-gamma family and activity products"),
+    Rule("C18-R3", r3_log_gamma, 17, "log-gamma family and activity products"),
 ]
 
 MUTANTS = [
+    Mutant("neutral-species-skipped", [(EL, "        tot += nr * extended_log_gamma(IS, z[idx], a[idx], Aval, Bval, C)", "        if z[idx] == 0:\n            continue\n        tot += nr * extended_log_gamma(IS, z[idx], a[idx], Aval, Bval, C)")], "C18-R3", "every-species-contributes"),
     Mutant("ionic-z-not-squared", [(EL, "            tot += b * z ** 2", "            tot += b * z")], "C18-R1", "term=b*z**2"),
     Mutant("ionic-first-term-abs", [(EL, "            tot = b * z ** 2", "            tot = b * abs(z)")], "C18-R1", "term=b*z**2"),
     Mutant("ionic-no-half", [(EL, "    return tot / 2", "    return tot")], "C18-R1", "I=tot/2"),
